@@ -5,6 +5,7 @@
 set -u
 d="$(cd "$1" && pwd)"
 export GOFLAGS=-mod=mod GOPROXY=off GOSUMDB=off GOTOOLCHAIN=local
+/verif/tools/seedkit.sh >/dev/null
 wt=$(mktemp -d /tmp/seedverify.XXXXXX)
 git -C /repo worktree add -q --detach "$wt" HEAD || exit 2
 cleanup() { git -C /repo worktree remove --force "$wt" >/dev/null 2>&1; rm -rf "$wt"; }
@@ -13,14 +14,16 @@ cd "$wt"
 demo_dir=$(python3 -c "import json,sys;print(json.load(open('$d/meta.json')).get('demo_dir','').strip('/'))")
 demo_cmd=$(python3 -c "import json,sys;print(json.load(open('$d/meta.json')).get('demo_cmd',''))")
 demo_cmd=${demo_cmd#*GOTOOLCHAIN=local }
-for f in "$d"/*_test.go "$d"/*.go; do [ -f "$f" ] && cp "$f" "$wt/$demo_dir/" ; done 2>/dev/null
 if ! git apply --check "$d/patch.diff" 2>/dev/null; then echo "RESULT apply=FAIL"; exit 1; fi
-# without the change
-base=$(eval "$demo_cmd" 2>&1 | tail -3 | tr '\n' ' ')
-echo "$base" | grep -q "^ok\|	ok\|ok  " && b=pass || b=fail
+# with the change: build and pinned tests (before the demonstration file is added)
 git apply "$d/patch.diff"
 go build -modfile=/tmp/seedkit/go.alt.mod ./... >/dev/null 2>&1 && bld=ok || bld=FAIL
-go test -count=1 ./gameboy/cpu/ ./gameboy/timer/ >/dev/null 2>&1 && tst=ok || tst=FAIL
+go test -vet=off -count=1 ./gameboy/cpu/ ./gameboy/timer/ >/dev/null 2>&1 && tst=ok || tst=FAIL
+for f in "$d"/*_test.go; do [ -f "$f" ] && cp "$f" "$wt/$demo_dir/" ; done 2>/dev/null
 mut=$(eval "$demo_cmd" 2>&1 | tail -3 | tr '\n' ' ')
 echo "$mut" | grep -q "FAIL" && m=fail || m=pass
+# without the change
+git apply -R "$d/patch.diff"
+base=$(eval "$demo_cmd" 2>&1 | tail -3 | tr '\n' ' ')
+echo "$base" | grep -q "^ok\|	ok\|ok  " && b=pass || b=fail
 echo "RESULT apply=ok build=$bld tests44=$tst demo_without=$b demo_with=$m"
